@@ -114,6 +114,7 @@ def run(rep):
                 break   # the failing spelling did not fail: what it bound is unspecified, stop comparing this program
     random_trace(rep, 150 if quick else 2500)
     phrases_through_variables(rep, 60 if quick else 600)
+    chains(rep)
 
 
 # ------------------------------------------------------------------------------------------------------
@@ -159,6 +160,72 @@ def operand_value(line, cfg):
     if f in ("unix_from", "unix_round"):
         return {"k": "num", "q": [line["ts"]["d"] * 86400 + line["ts"]["s"], 1, 0]}
     return None
+
+
+def chains(rep):
+    """a name bound to a value that only arises as a result (a time moved by 25 or 49 hours, a date moved by days), then used as the
+    operand of a phrase: Gen_Chain.tla enumerates the two-line programs with both expected slots (form `via`); each is run as one
+    text and line by line through a re-used session"""
+    import forms
+    from props import c09, c11
+    g = tlc("Gen_Chain", "Gen_Chain", workers=4, timeout=600)
+    if not g.ok or len(g.cases) < 100:
+        raise ToolError("Gen_Chain failed: %s" % (g.violated or g.error))
+    rep.add_tlc("Gen_Chain", g)
+    NOZ = {"name": "", "off": 0}
+    cases, metas = [], []
+    for ci, c in enumerate(sorted(g.cases, key=lambda x: json_key(x))):
+        l1, l2 = c["lines"]
+        rhs, ph = l1["rhs"], l2["phrase"]
+        name = " ".join(l1["name"])
+        # (12:xx am is the known finding of C11's literal forms: not written here)
+        first = ([r for r in c11.renderings(rhs, ci, True) if "12am" not in r[0]] if rhs["form"] == "time_shift" else c09.renderings(rhs, "en", ci, False))[0][1]
+        f = ph["form"]
+        if f == "time_diff":
+            second = "%s to %s" % (name, render.time_text(ph["w2"], NOZ, render.time_spellings(ph["w2"])[ci % 2][0]))
+        elif f == "time_conv":
+            second = "%s to %s" % (name, ph["z2"]["name"])
+        elif f == "time_shift":
+            second = "%s %s %s" % (name, ph["op"], render.dur_parts_text(ph["parts"], "en", ci))
+        elif f == "date_diff":
+            second = "%s to %s" % (name, render.date_texts(ph["b"], "en", False, ci)[0][1])
+        else:
+            second = "%s %s %d %s" % (name, ph["op"], ph["n"], "days" if ph["n"] != 1 else "day")
+        texts = ["%s = %s" % (name, first), second]
+        cases.append({"id": "ch%d.text" % ci, "cfg": CFG, "steps": [{"op": "execute", "lang": "en", "text": "\n".join(texts)}]})
+        metas.append((c, texts, "text"))
+        steps = [{"op": "session_new", "s": "s"}, {"op": "set_language", "s": "s", "lang": "en"}]
+        for t in texts:
+            steps += [{"op": "set_text", "s": "s", "text": t}, {"op": "execute_session", "s": "s"}]
+        cases.append({"id": "ch%d.sess" % ci, "cfg": CFG, "steps": steps})
+        metas.append((c, texts, "session"))
+    obs = run_harness_stable_day(cases, "c03.chain", jobs=8)
+    for (c, texts, mode), o in zip(metas, obs):
+        steps = o.get("steps") or []
+        if mode == "text":
+            ss = proj.slots_of_step(steps[0]) if steps else None
+            slots = ss[1] if ss and ss[0] and len(ss[1]) == 2 else [None, None]
+        else:
+            slots = []
+            for i in range(2):
+                ss = proj.slots_of_step(steps[2 + 2 * i + 1]) if len(steps) > 2 + 2 * i + 1 else None
+                slots.append(ss[1][0] if ss and ss[0] and len(ss[1]) == 1 else None)
+        rep.case(["chain", texts, mode], True)
+        rep.replayed += 1
+        for i, (exp, slot) in enumerate(zip(c["expected"], slots)):
+            if slot is not None:
+                forms.project_extra(slot, {"lang": "en", "cfg": CFG})
+            if not compare.match_slot(exp, slot):
+                kind = compare.failure_kind(slot, steps[0] if steps else o)
+                rep.violation({"check": "replay", "form": "chain", "text": texts, "mode": mode, "line_index": i, "cfg": CFG, "expected": c["expected"], "observed": slots,
+                               "feat": {"failure": kind, "form": "chain", "phrase": c["lines"][1]["phrase"]["form"], "first": c["lines"][0]["rhs"]["form"], "mode": mode},
+                               "class": "%s|chain|%s then %s|%s|line%d" % (kind, c["lines"][0]["rhs"]["form"], c["lines"][1]["phrase"]["form"], mode, i + 1)})
+                break
+
+
+def json_key(x):
+    import json as _j
+    return _j.dumps(x, sort_keys=True)
 
 
 def trailing_operand_value(line, cfg):
